@@ -21,25 +21,30 @@ AT = "bpp::AbstractHmmTransitionMatrix"
 
 
 def _memo_keys(fb):
-    """fields F of AbstractHmmLikelihood compared with an argument, assigned from it on mismatch, in a method returning a cached field"""
+    """fields F of AbstractHmmLikelihood that act as memo keys: compared (== / !=) with an argument of a method that assigns F
+    from that argument and calls a virtual compute...() on this, in whatever arrangement (guarded block or early return)"""
     keys = {}
+    flds = [fl["name"] for fl in fb.need_class(AH)["fields"]]
     for f in fb.concrete_fns():
         if f.cls != AH or f.body is None:
             continue
-        for n in walk(f.body):
-            if n["k"] != "IfStmt":
-                continue
-            cond = strip(f.nodes[n["cond"]])
-            txt = render(cond)
-            for p in f.params:
-                for fld in fb.need_class(AH)["fields"]:
-                    if txt in ("(%s != %s)" % (p["name"], fld["name"]), "(%s != %s)" % (fld["name"], p["name"])):
-                        then = f.nodes[n["then"]]
-                        assigns = [x for x in walk(then) if is_call(x) and x["callee"]["name"] == "operator=" and "obj" in x and render(f.obj(x)) == fld["name"]] + \
-                                  [x for x in walk(then) if x["k"] == "BinaryOperator" and x["op"] == "=" and render(kids(x)[0]) == fld["name"]]
-                        computes = [x for x in walk(then) if is_call(x) and x["callee"].get("virtual") and x["callee"]["name"].startswith("compute") and ("obj" not in x or strip(f.obj(x))["k"] == "CXXThisExpr")]
-                        if assigns and computes:
-                            keys[fld["name"]] = (f, computes[0]["callee"])
+        for p in f.params:
+            for fld in flds:
+                compared = False
+                for n in f.all_nodes():
+                    if n["k"] in ("IfStmt", "ConditionalOperator") and "cond" in n or n["k"] == "ConditionalOperator":
+                        cnode = f.nodes[n["cond"]] if "cond" in n and isinstance(n["cond"], int) else kids(n)[0]
+                        txt = render(strip(cnode)).replace(" ", "")
+                        if txt in ("(%s!=%s)" % (p["name"], fld), "(%s!=%s)" % (fld, p["name"]), "(%s==%s)" % (p["name"], fld), "(%s==%s)" % (fld, p["name"]),
+                                   "!(%s==%s)" % (p["name"], fld), "!(%s==%s)" % (fld, p["name"])):
+                            compared = True
+                if not compared:
+                    continue
+                assigns = [x for x in f.all_nodes() if is_call(x) and x["callee"]["name"] == "operator=" and "obj" in x and render(f.obj(x)) == fld and render(f.args(x)[0]) == p["name"]] + \
+                          [x for x in f.all_nodes() if x["k"] == "BinaryOperator" and x["op"] == "=" and render(kids(x)[0]) == fld and render(kids(x)[1]) == p["name"]]
+                computes = [x for x in f.calls() if x["callee"].get("virtual") and x["callee"]["name"].startswith("compute") and ("obj" not in x or strip(f.obj(x))["k"] == "CXXThisExpr")]
+                if assigns and computes:
+                    keys[fld] = (f, computes[0]["callee"])
     return keys
 
 
